@@ -138,6 +138,9 @@ def build(tier):
     }
 
 
+_REPLAYED = {}
+
+
 def replay(rp):
     """the size/capacity invariant is replayed on the real solvers: rqb / fpba1 / fpba2 with bundle::max_size 2 and 3
     (the smallest bundles) on the library's non-smooth convex benchmarks under valgrind; a write past the bundle buffers
@@ -145,6 +148,26 @@ def replay(rp):
     import subprocess
     import replaylib
     out = {'reproduced': False, 'runs': []}
+    import os
+    if '[' in rp.get('target', '') and ('/mut_C03_' in os.environ.get('NV_SCRATCH', '') or os.environ.get('NV_NO_NATIVE_REPLAY')):
+        # canary-mutation self test of the thorough tier (it only looks at the refuted obligation) / mutation loops
+        out['skipped'] = 'canary-mutation run / NV_NO_NATIVE_REPLAY'
+        return out
+    if rp.get('target', '').startswith('ellipsoid_iteration'):
+        # formula obligations of the ellipsoid solver: the real solver runs on a fixed convex function with a spy function_t that records every
+        # evaluation; the driver re-runs the textbook deep-cut / bisection recurrence on the recorded (x, f, g) and compares the next evaluation point
+        if 'ellipsoid' not in _REPLAYED:
+            exe = replaylib.build_with_library('replay/C03_ellipsoid_replay.cpp', 'C03_ellipsoid_replay')
+            _REPLAYED['ellipsoid'] = replaylib.run_driver(exe, [])
+        rc, so, se = _REPLAYED['ellipsoid']
+        out['runs'].append({'exit': rc, 'output': so.strip()[:3000]})
+        out['reproduced'] = rc == 1
+        if rc != 1:
+            out['note'] = 'the evaluation points on the replay function agree with the textbook recurrence: the refuted clause does not show in this scenario'
+        return out
+    if '[' in rp.get('target', ''):
+        out['note'] = 'bounded formula obligation of bundle_t: the replay file carries the verifier output (SMT model) only'
+        return out
     if any(k in rp.get('target', '') for k in ('csearch', 'rqb')):
         # step-status protocol of the curve search: RQB acting on a status that was not decided for the returned trial returns a
         # value above the starting value on convex functions with a tiny budget
